@@ -62,11 +62,15 @@ pub struct Plan {
     pub sched_seed: u64,
     #[serde(default)]
     pub pct_depth: usize,
+    /// Level 2 only: about one injected preemption per this many allocations of a pool task
+    /// (0 = tasks lose the processor only at salsa's synchronisation points).
+    #[serde(default)]
+    pub preempt_every: u64,
 }
 
 impl Plan {
     pub fn reference() -> Plan {
-        Plan { hash_seed: 0, workers: 1, task_order: 2, exec_seed: 0, prefix: vec![], scheduler: "random".into(), sched_seed: 0, pct_depth: 0 }
+        Plan { hash_seed: 0, workers: 1, task_order: 2, exec_seed: 0, prefix: vec![], scheduler: "random".into(), sched_seed: 0, pct_depth: 0, preempt_every: 0 }
     }
 }
 
@@ -469,7 +473,11 @@ mod pool {
                             let id = self.next_task.fetch_add(1, Ordering::SeqCst);
                             shuttle::thread::sleep(std::time::Duration::from_millis(0));
                             let _restore = crate::dbx::TaskGuard(crate::dbx::set_current_task(id));
-                            if let Err(p) = std::panic::catch_unwind(std::panic::AssertUnwindSafe(t)) {
+                            crate::preempt::PROGRESS.fetch_add(1, Ordering::Relaxed);
+                            let was = crate::preempt::enter_task();
+                            let r = std::panic::catch_unwind(std::panic::AssertUnwindSafe(t));
+                            crate::preempt::leave_task(was);
+                            if let Err(p) = r {
                                 panicked.lock().unwrap().get_or_insert(p);
                             }
                         }
@@ -537,6 +545,31 @@ pub fn execute(project: &ProjectRef, plan: &Plan, counters: &mut Counters) -> Ru
         }
     };
     let out = std::process::Output { status, stdout: out_reader.join().unwrap_or_default(), stderr: err_reader.join().unwrap_or_default() };
+    if out.status.code() == Some(86) {
+        // The injected preemption hit a task that held a blocking lock shuttle does not control:
+        // inconclusive, not an observation about the compiler. Re-run the plan without the seam.
+        counters.inc("level2_preemption_deadlock_inconclusive");
+        let mut p2 = plan.clone();
+        p2.preempt_every = 0;
+        return execute(project, &p2, counters);
+    }
+    // A preempted run that ends without output (a panic such as "RefCell already borrowed": some
+    // std thread-local of a library is shared by all simulated tasks of the one OS thread, which a
+    // preemption in the middle of its update exposes) says nothing about the compiler: fall back
+    // to the same plan without the seam.
+    if plan.preempt_every != 0 && !timed_out {
+        let text = String::from_utf8_lossy(&out.stdout);
+        let no_output = match text.lines().rev().find(|l| l.starts_with("{\"c12-exec\"")) {
+            None => true,
+            Some(l) => l.contains("\"PANIC\":"),
+        };
+        if no_output {
+            counters.inc("level2_preempted_run_without_output_inconclusive");
+            let mut p2 = plan.clone();
+            p2.preempt_every = 0;
+            return execute(project, &p2, counters);
+        }
+    }
     if timed_out {
         let mut obs = Observables::new();
         obs.insert("PANIC".into(), format!("no result within {}s (run killed)", limit.as_secs()));
@@ -582,6 +615,10 @@ fn execute_inproc(project: &ProjectRef, plan: &Plan, counters: &mut Counters) ->
     let project = project.clone();
     let plan = plan.clone();
     let plan_outer = plan.clone();
+    crate::preempt::configure(plan.preempt_every, plan.sched_seed);
+    if plan.preempt_every != 0 {
+        crate::preempt::start_deadlock_watchdog(25);
+    }
     let body = move || {
         let mut c = Counters::default();
         let plan2 = plan.clone();
@@ -610,6 +647,8 @@ fn execute_inproc(project: &ProjectRef, plan: &Plan, counters: &mut Counters) ->
         }
     }));
     verif_par::set_executor(None);
+    crate::preempt::disarm();
+    counters.add("level2_injected_preemptions", crate::preempt::PREEMPTIONS.load(std::sync::atomic::Ordering::Relaxed));
     match (r, slot.lock().unwrap().take()) {
         (Ok(_), Some((out, c))) => {
             counters.merge(&c);
@@ -652,6 +691,7 @@ pub fn generate_plan(seed: u64, level2: bool) -> Plan {
         scheduler: if rng.chance(1, 3) { "pct".into() } else { "random".into() },
         sched_seed: rng.next_u64(),
         pct_depth: 2 + rng.below(4),
+        preempt_every: if level2 && rng.chance(2, 5) { [3_000u64, 20_000, 100_000, 400_000][rng.below(4)] } else { 0 },
     }
 }
 
